@@ -214,21 +214,21 @@ class Program(object):
         v = m.consts.get(name)
         if v is None:
             raise AnalysisError('registry %s.%s not found' % (module, name))
-        if isinstance(v, ast.List):
+        if isinstance(v, (ast.List, ast.Tuple, ast.Set)):
             out = []
             for e in v.elts:
                 if not isinstance(e, ast.Name):
-                    raise AnalysisError('registry %s.%s has a non-name entry' % (module, name))
+                    raise Unrecognised('registry %s.%s has a non-name entry' % (module, name))
                 out.append(e.id)
             return out
         if isinstance(v, ast.Dict):
             out = []
             for k in v.keys:
                 if not (isinstance(k, ast.Constant) and isinstance(k.value, str)):
-                    raise AnalysisError('registry %s.%s has a non-literal key' % (module, name))
+                    raise Unrecognised('registry %s.%s has a non-literal key' % (module, name))
                 out.append(k.value)
             return out
-        raise AnalysisError('registry %s.%s is not a list or dict literal' % (module, name))
+        raise Unrecognised('registry %s.%s is not a list or dict literal' % (module, name))
 
     def const_value(self, module, name, _depth=0):
         """Evaluate a module-level constant built from literals, +, list(), dict.keys() ..."""
@@ -239,7 +239,7 @@ class Program(object):
 
     def _eval(self, m, e, depth):
         if depth > 20:
-            raise AnalysisError('constant evaluation too deep')
+            raise Unrecognised('constant evaluation too deep')
         if isinstance(e, ast.Constant):
             return e.value
         if isinstance(e, ast.List):
@@ -261,7 +261,7 @@ class Program(object):
                 and e.func.attr in ('keys', 'items', 'values') and not e.args:
             v = self._eval(m, e.func.value, depth + 1)
             return list(getattr(v, e.func.attr)())
-        raise AnalysisError('cannot evaluate constant expression %s' % ast.unparse(e))
+        raise Unrecognised('cannot evaluate constant expression %s' % ast.unparse(e)[:60])
 
     # ----------------------------------------------------------------- callee resolution
     def callee(self, call, func):
